@@ -719,13 +719,16 @@ theorem build_spec (raw : List (Str × Str)) (hv : rawValid raw = true) :
 
 /-! ## the authorisation loop -/
 
-theorem authorizeAll_eq (az : ImpReq → Decision) (gs : Bool) (a : Acc) (reqs : List ImpReq) :
+/-- the record the filter builds for a reference is the record the specification requires -/
+theorem attrsFor_eq_recordOf (r : ImpReq) : attrsFor r = recordOf r := by cases r <;> rfl
+
+theorem authorizeAll_eq (az : Attrs → Decision) (gs : Bool) (a : Acc) (reqs : List ImpReq) :
     authorizeAll az gs a reqs =
-      if reqs.all (fun r => (az r).allowed) then some (reqs.foldl (accStep gs) a) else none := by
+      if reqs.all (fun r => (az (attrsFor r)).allowed) then some (reqs.foldl (accStep gs) a) else none := by
   induction reqs generalizing a with
   | nil => simp [authorizeAll]
   | cons r rs ih =>
-    by_cases h : (az r).allowed = true
+    by_cases h : (az (attrsFor r)).allowed = true
     · simp [authorizeAll, h, ih]
     · simp [authorizeAll, h]
 
@@ -891,7 +894,7 @@ theorem fold_checks (raw : List (Str × Str)) (a : Acc)
     · simp [finalGroups_eq_augment, hg, hm]
 
 /-- **The filter against the specification.** -/
-theorem impersonate_spec (raw : List (Str × Str)) (hv : rawValid raw = true) (u : Identity) (az : ImpReq → Decision) :
+theorem impersonate_spec (raw : List (Str × Str)) (hv : rawValid raw = true) (u : Identity) (az : Attrs → Decision) :
     impersonate (authnStrip (parsed raw)) u az =
       if !impersonationRequested raw then .pass (authnStrip (parsed raw)) u
       else if malformed raw then .internalError
@@ -911,8 +914,9 @@ theorem impersonate_spec (raw : List (Str × Str)) (hv : rawValid raw = true) (u
           (reqExtras raw).flatMap (fun e => e.2.map (ImpReq.extra e.1))) := by simp [checks]
       simp only [hm, hr, Bool.false_eq_true, if_false, if_true, Bool.not_true]
       rw [hc]
-      simp only [← hc, authorizeAll_eq, values_strip_group raw hv, allAllowed]
-      by_cases ha : (checks raw).all (fun r => (az r).allowed) = true
+      simp only [← hc, authorizeAll_eq, values_strip_group raw hv, allAllowed, requiredRecords, List.all_map,
+        Function.comp_def, attrsFor_eq_recordOf]
+      by_cases ha : (checks raw).all (fun r => (az (recordOf r)).allowed) = true
       · simp only [ha, if_true]
         rw [fold_checks raw _ rfl]
       · simp [ha]
@@ -941,7 +945,7 @@ theorem clearImpersonation_user (h : Headers) : hget (clearImpersonation h) hImp
 /-- Everything that can be said about a forwarded request: the client's lines were accepted, the client was
     authenticated, the specification says "forward as `ctx`", and what arrives is what `WrapRequest` makes of a header
     set without `Authorization`, without `Impersonate-User`, with canonical names. -/
-theorem serve_forwarded (token : Str) (raw : List (Str × Str)) (auth : Option Identity) (az : ImpReq → Decision)
+theorem serve_forwarded (token : Str) (raw : List (Str × Str)) (auth : Option Identity) (az : Attrs → Decision)
     (up : Bool) (recv : Headers) (ctx : Identity) (h : serve token raw auth az up = .forwarded recv ctx) :
     ∃ u h1, rawValid raw = true ∧ auth = some u ∧ expected raw u az = .forward ctx ∧
       (∀ e ∈ h1, canonicalKey e.1 = e.1) ∧ (∀ e ∈ h1, e.1 ≠ hAuthorization) ∧ hget h1 hImpUser = [] ∧
